@@ -327,6 +327,17 @@ fn generate(cli: &Cli) -> Vec<Case> {
                         raw.resize(big.max(20), b'x');
                         let sc_v = apply(&sc, pos, vec![Out::Pkt(Pkt::ConfPluginMessageIn { raw })], false);
                         out.push(Case { sc: sc_v, state: format!("{}/{}", shape.name, pos.state), class: "maximum-size-frame", detail: big.to_string(), must_err: false, refuse_after: None, max_frame });
+                        // a well-formed frame a little above the configured maximum is refused in the
+                        // configuration phase like anywhere else (the client goes on as if nothing happened)
+                        for over in [1usize, 50] {
+                            let body = max_frame as usize + over;
+                            if body > 17 && body < 300_000 {
+                                let mut raw = b"\x0fminecraft:brand".to_vec();
+                                raw.resize(body - 1, b'y');
+                                let sc_v = apply(&sc, pos, vec![Out::Pkt(Pkt::ConfPluginMessageIn { raw })], false);
+                                out.push(Case { sc: sc_v, state: format!("{}/{}", shape.name, pos.state), class: "frame-just-above-maximum", detail: format!("max+{over}"), must_err: true, refuse_after: None, max_frame });
+                            }
+                        }
                         let small = Pkt::ConfPluginMessageIn { raw: b"\x0fminecraft:brandvanilla".to_vec() }.frame();
                         let flood: Vec<u8> = small.iter().cycle().take(small.len() * 4000).copied().collect();
                         let sc_v = apply(&sc, pos, vec![Out::Frame(flood)], false);
